@@ -32,8 +32,42 @@ def main(argv):
                 f = prog.fns[p]
                 print("%-110s %s:%d %s" % (p, f.file, f.line, f.vis or ""))
         return 0
+    if cmd == "panic-draft":
+        return panic_draft(argv[1:])
+    if cmd == "inventory":
+        return inventory(argv[1:])
     if cmd in ("check", "replay"):
         from . import runner
         return runner.main(argv)
     print("unknown command", cmd)
     return 2
+
+
+def inventory(argv):
+    """verif inventory <root-regex>... : list panic-capable sites reachable from roots"""
+    from . import panic as P
+    prog = load()
+    roots = []
+    for rx in argv:
+        roots += [f.path for f in prog.find_fns(rx)]
+    reach, parent = prog.reachable_from(roots)
+    fns = [prog.fns[p] for p in sorted(reach)]
+    sites = P.analyse(prog, fns)
+    print("roots=%d reachable=%d sites=%d" % (len(roots), len(reach), len(sites)))
+    for s in sites:
+        atoms, rel = P.relevant_atoms(prog, s)
+        print("%s %s\n    %s\n    %s\n    discharge=%s\n    atoms=%s" % (s.where, s.fn.path, s.kind, s.descr, s.discharge, [a.text for a in rel]))
+
+
+def panic_draft(argv):
+    import json
+    from . import panic as P
+    from .rules import C05, C06
+    prog = load()
+    roots = []
+    for rx in C05.ENTRY + C06.ENTRY + [r"^essential_sign::", r"^essential_hash::"]:
+        roots += [f.path for f in prog.find_fns(rx)]
+    reach, _ = prog.reachable_from(roots)
+    fns = [prog.fns[p] for p in sorted(reach)]
+    ents = P.draft_entries(prog, fns)
+    print(json.dumps({"sites": ents}, indent=1))
